@@ -155,8 +155,11 @@ func main() {
 		}
 	}
 	// malformed targets
-	for _, t := range []string{"", "a", "a/b", "/", "//", "a//", "a/b/c/d/e/f/g/h/i/j/k/l/m/n/o/p/q/r/s/t/u/v/w/", "a/b/c/d/e/f/g/h/i/j/k/l/m/n/o/p/q/r/s/t/u/v/w/x/", "a/b/c/d/e/f/g/h/i/j/k/l/m/n/o/p/q/r/s/t/u/v/w/x/#/"} {
+	for _, t := range []string{"", "a", "a/b", "/", "//", "a//", "a/b#/", "x#/", "a/#b/", "a/b+/", "+b/", "#a/", "a/#/#/", "a/+/#/", "b#/#/", "a/b/c/d/e/f/g/h/i/j/k/l/m/n/o/p/q/r/s/t/u/v/w/", "a/b/c/d/e/f/g/h/i/j/k/l/m/n/o/p/q/r/s/t/u/v/w/x/", "a/b/c/d/e/f/g/h/i/j/k/l/m/n/o/p/q/r/s/t/u/v/w/x/#/"} {
 		emit(t, "a/")
+		emit(t, "a/b/")
+		emit(t, "a/c/")
+		emit(t, "x/")
 	}
 
 	// ---- B. Authorize through a real service, one per licence version ----
